@@ -9,6 +9,7 @@
 
 #include "genotypecolumncostcomputer.h"
 #include "genotypedptable.h"
+#include "veriftrace.h"
 #include "columnindexingiterator.h"
 #include "transitionprobabilitycomputer.h"
 
@@ -44,6 +45,7 @@ GenotypeDPTable::GenotypeDPTable(ReadSet* read_set, const vector<unsigned int>& 
    compute_index();
    compute_backward_prob();
    compute_forward_prob();
+   veriftrace::event("G", "end", 0, input_column_iterator.get_column_count());
 
 }
 
@@ -123,6 +125,7 @@ void GenotypeDPTable::compute_backward_prob()
         return;
     }
 
+    veriftrace::event("G", "begin", 0, column_count);
     // do backward pass, start at rightmost column
     backward_input_column_iterator.jump_to_column(column_count-1);
 
@@ -150,6 +153,7 @@ void GenotypeDPTable::compute_backward_prob()
 
         // check whether to delete the previous column
         if ((k>1) && (column_index < column_count-1) && (((column_index+1)%k) != 0)) {
+            veriftrace::event("G", "free", column_index+1, column_count);
             delete backward_projection_column_table[column_index+1];
             backward_projection_column_table[column_index+1] = nullptr;
         }
@@ -203,6 +207,7 @@ void GenotypeDPTable::compute_backward_column(size_t column_index, unique_ptr<ve
        if (backward_projection_column_table[column_index-1] != nullptr) return;
    }
 
+   veriftrace::event("G", "bcompute", column_index, backward_input_column_iterator.get_column_count());
    ColumnIndexingScheme* current_indexer = indexers[column_index];
    assert(current_indexer != nullptr);
 
@@ -313,6 +318,7 @@ void GenotypeDPTable::compute_forward_column(size_t column_index, unique_ptr<vec
         current_input_column = input_column_iterator.get_next();
     }
 
+    veriftrace::event("G", "fcompute", column_index, input_column_iterator.get_column_count());
     // obtain previous projection column (which is assumed to have already been computed)
     Vector2D<long double>* previous_projection_column = nullptr;
     if (column_index > 0) {
@@ -337,6 +343,7 @@ void GenotypeDPTable::compute_forward_column(size_t column_index, unique_ptr<vec
             backward_projection_column_table[column_index]->divide_entries_by(scaling_parameters[column_index]);
         }
         backward_probabilities = backward_projection_column_table[column_index];
+        veriftrace::event("G", "read", column_index, input_column_iterator.get_column_count());
         assert(backward_probabilities != nullptr);
     }
 
@@ -431,6 +438,7 @@ void GenotypeDPTable::compute_forward_column(size_t column_index, unique_ptr<vec
 
     // we can remove the backward-probability column
     if(backward_projection_column_table[column_index] != nullptr){
+        veriftrace::event("G", "free", column_index, input_column_iterator.get_column_count());
         delete backward_projection_column_table[column_index];
         backward_projection_column_table[column_index] = nullptr;
     }
